@@ -45,6 +45,9 @@ type variant struct {
 	// PBonus: preemptions on top of the tier's bound (the two-caller races need two: one to let the
 	// second caller start, one to bring the first back between the second's two steps)
 	PBonus int
+	// ByID: the consumer finishes a seed with a freshly built item that carries the seed's ID (the reactor
+	// tracks seeds by ID; which Go object carries the ID is not part of its contract)
+	ByID bool
 	Inserts1 []string
 	Inserts2 []string
 }
@@ -303,7 +306,11 @@ func consumer(w *world) {
 				close(dupDone)
 			}()
 		}
-		fres := w.call("cons", "finish", id, func() error { return reactor.MarkAsFinished(it) })
+		fin := it
+		if w.v.ByID {
+			fin = newItem(id)
+		}
+		fres := w.call("cons", "finish", id, func() error { return reactor.MarkAsFinished(fin) })
 		if dupDone != nil {
 			<-dupDone
 		}
@@ -377,6 +384,7 @@ func variants(tier string) []variant {
 		{Name: "t2-three-seeds", Tokens: 2, Extra: true, Inserts1: []string{"a", "b"}, Inserts2: []string{"c"}},
 		{Name: "t2-concurrent-repeated-finish", Tokens: 2, Dup: "finish", PBonus: 1, Inserts1: []string{"a", "b"}},
 		{Name: "t2-feedback-racing-finish", Tokens: 2, Dup: "feedback", PBonus: 1, Inserts1: []string{"a", "b"}},
+		{Name: "t2-finish-by-id", Tokens: 2, ByID: true, Inserts1: []string{"a", "b"}, Inserts2: []string{"c"}},
 		{Name: "t1-freeze", Tokens: 1, Freeze: true, Inserts1: []string{"a", "b"}, Inserts2: []string{"c"}},
 		{Name: "t2-freeze", Tokens: 2, Freeze: true, Inserts1: []string{"a", "b"}, Inserts2: []string{"c"}},
 		{Name: "t1-freeze-rest-stop-late-calls", Tokens: 1, Freeze: true, StopRest: true, Inserts1: []string{"a"}, Inserts2: []string{"b"}},
